@@ -6,7 +6,7 @@ HOOKS = {
     "source_commits": [],
     "add_only": True,
 }
-NOTES = ("Every check = proof gate (lake build, forbidden-token scan, #print axioms of the property theorems; for C02 C03 C04 C10 C11 C12 also "
+NOTES = ("Every check = proof gate (lake build, forbidden-token scan, #print axioms of the property theorems; for C01 C02 C03 C04 C08 C10 C11 C12 C17 also "
          "the generated-model gate: re-translation of the Python sources by tools/py2lean.py and re-check of BBProofs/GenEq.lean) + correspondence "
          "(real bblean from /repo vs the compiled Lean model on the same histories) + direct oracle search; see DESIGN.md §2.2. "
          "Fix commits in /repo: see known_findings.json.")
@@ -151,11 +151,12 @@ CLAIMS = {
                 "set_merge changes nothing), C17_reset / C17_reset_fresh (reset = freshly constructed estimator with the same "
                 "configuration), C17_ctor. Correspondence: configuration streams (constructor with names/objects/None x tolerance, "
                 "set_merge with every argument subset, setters, reset) compared on criterion/tolerance/threshold/branching factor and "
-                "clustering after every call; oracle re-checks symmetry, frame and atomicity on the real objects.",
+                "clustering after every call; oracle re-checks symmetry, frame and atomicity on the real objects."
+                + GEN.format(src="the configuration part of BitBirch in bitbirch.py (__init__ up to the first statement that does not concern threshold / branching_factor / _merge_accept_fn, the tolerance and merge_criterion properties, set_merge) with get_merge_accept_fn; theorems gen_init, gen_set_merge in BBProofs/GenEq4.lean", prop="C17"),
         "note": TB + "Models the repaired logic (fix b75235c); the tolerance lives in the merge-function object, so switching to a criterion "
                 "without tolerance and back yields the default. Not modelled: one merge-function OBJECT shared by two estimators (aliasing), "
                 "the discouraged global set_merge.",
-        "technique": "Lean 4 theorems over decision-logic model + differential correspondence",
+        "technique": TGEN,
     },
     "C18": {
         "text": "C18_assign (clusters partitioning 0..n-1 => the assignment vector gives every fingerprint the 1-based rank of its cluster), "
